@@ -684,6 +684,43 @@ func (w *world) exec(op string) (res string) {
 			delete(w.taint, atoi(f[1]))
 		}
 		return w.snapshot()
+	case "setpart":
+		// setpart: SetPartitioner("OrderedPartitioner") - the partitioner becomes known AFTER hosts / keyspaces (a second
+		// call with the same name changes nothing); the round-robin based policies ignore it
+		if len(f) != 1 {
+			return "bad-op"
+		}
+		w.epoch++
+		w.lastPlain = nil
+		w.pol.SetPartitioner("OrderedPartitioner")
+		if w.isTA && !w.partSet {
+			w.partSet = true
+			w.specRefreshAll()
+		}
+		return "ok"
+	case "islocal":
+		// islocal <id>: IsLocal(host) [HostTier(host)/MaxHostTier() for a HostTierer] - the tier function the token-aware
+		// policy sorts the replicas by
+		if len(f) != 2 {
+			return "bad-op"
+		}
+		h, ok := w.hosts[atoi(f[1])]
+		if !ok {
+			return "bad-op"
+		}
+		res := b01(w.pol.IsLocal(h))
+		var inner interface{} = w.pol
+		if w.isTA {
+			inner = gocql.VerifTAFallback(w.pol)
+		}
+		if ht, ok := inner.(gocql.HostTierer); ok {
+			res += fmt.Sprintf(" %d/%d", ht.HostTier(h), ht.MaxHostTier())
+		}
+		// the harness' own tier function (from the op lines): nearest tier <=> local
+		if (w.tier(h) == 0) != w.pol.IsLocal(h) {
+			return "crash:property violated on the real code: IsLocal disagrees with the tier of the host: " + res
+		}
+		return res
 	case "addhosts":
 		// addhosts <id,id,...>: what Session.init does with the hosts of the first ring refresh - ONE call of AddHosts
 		// if the policy has it (tokenAwareHostPolicy: every host into its own list, then ring + every held table
@@ -837,6 +874,14 @@ func (w *world) exec(op string) (res string) {
 		if !isOffer {
 			limitS, perms = f[3], f[4]
 		}
+		// <ks> = nil: Pick(nil); <ks> = err: a query whose GetRoutingKey fails (on a keyspace WITH a table) - both are
+		// handed to the fallback policy as they are, like a query without routing key
+		qkind := ""
+		if f[1] == "nil" || f[1] == "err" {
+			qkind = f[1]
+			f = append([]string(nil), f...)
+			f[1], f[2] = "-", "-"
+		}
 		if isOffer && w.offerExcluded(f[1], f[2], perms) != "" {
 			return "excluded"
 		}
@@ -872,7 +917,14 @@ func (w *world) exec(op string) (res string) {
 		}
 		prevPlain := w.lastPlain
 		w.lastPlain = nil
-		it := w.pol.Pick(gocql.VerifQuery(ksName, rk))
+		var qry gocql.ExecutableQuery = gocql.VerifQuery(ksName, rk)
+		switch qkind {
+		case "nil":
+			qry = nil
+		case "err":
+			qry = gocql.VerifQueryErr("ks0", []byte(tok(0)))
+		}
+		it := w.pol.Pick(qry)
 		var got []*gocql.HostInfo
 		for n := 0; n < limit; n++ {
 			sh := it()
@@ -2283,8 +2335,10 @@ func (g *gen) burstScenario(idx, rounds int) {
 // subset (now and then one host twice, now and then before the partitioner / the keyspace table is known); then 6..15
 // steps of AddHost / RemoveHost / HostUp / HostDown / state / KeyspaceChanged / installed table / AddHosts AGAIN with
 // known and unknown hosts mixed or with known hosts only (the code then recomputes every held table although its host
-// list did not change: an installed table is dropped - what a fold of AddHost would not do); after every step full
-// drains without routing key and - token-aware - routed on keyspaces 0 and 1: `offer` (spec-backed) unless excluded.
+// list did not change: an installed table is dropped - what a fold of AddHost would not do); a third of the scenarios
+// learn the partitioner late (`setpart` at a random step, now and then repeated); after every step full drains
+// without routing key (a quarter each: Pick(nil) / a query whose GetRoutingKey fails) and - token-aware - routed on
+// keyspaces 0 and 1: `offer` (spec-backed) unless excluded; now and then `islocal`.
 func (g *gen) bulkScenario(idx int) {
 	r := g.r
 	g.kind = []string{"rr", "dc", "rack"}[idx%3]
@@ -2292,7 +2346,9 @@ func (g *gen) bulkScenario(idx int) {
 	shuffle := g.ta && r.Intn(4) == 0
 	g.nonlocal = g.ta && r.Bool()
 	g.ldc, g.lrack = r.Intn(2), r.Intn(2)
-	g.emit(fmt.Sprintf("reset %s %s %d %d %s %s %s", g.kind, b01(g.ta), g.ldc, g.lrack, b01(shuffle), b01(g.nonlocal), b01(r.Intn(12) != 0)),
+	// a third of the scenarios learn the partitioner LATE (SetPartitioner after hosts / keyspaces are known): `setpart`
+	latePart := r.Intn(3) == 0
+	g.emit(fmt.Sprintf("reset %s %s %d %d %s %s %s", g.kind, b01(g.ta), g.ldc, g.lrack, b01(shuffle), b01(g.nonlocal), b01(!latePart)),
 		"reset/"+g.kind+"/ta"+b01(g.ta), false)
 	g.n = 3 + r.Intn(7)
 	g.sess = -1
@@ -2337,12 +2393,22 @@ func (g *gen) bulkScenario(idx int) {
 	}
 	cls := "/" + g.kind + "/ta" + b01(g.ta)
 	observe := func() {
-		g.pickWith("-", "-", 1000, true)
+		switch r.Intn(4) {
+		case 0:
+			g.pickWith("nil", "-", 1000, true) // Pick(nil)
+		case 1:
+			g.pickWith("err", "-", 1000, true) // GetRoutingKey fails
+		default:
+			g.pickWith("-", "-", 1000, true)
+		}
 		if g.ta {
 			g.pickWith("0", strconv.Itoa(r.Intn((g.n+1)*100)), 1000, true)
 			if r.Bool() {
 				g.pickWith("1", strconv.Itoa(r.Intn((g.n+1)*100)), 1000, true)
 			}
+		}
+		if r.Intn(3) == 0 {
+			g.emit(fmt.Sprintf("islocal %d", 1+r.Intn(g.n)), "islocal"+cls, false)
 		}
 	}
 	if g.ta && r.Intn(3) == 0 {
@@ -2354,7 +2420,16 @@ func (g *gen) bulkScenario(idx int) {
 		g.emit("kschg 1", "kschg", true)
 		observe()
 	}
-	for i := 6 + r.Intn(10); i > 0; i-- {
+	setAt := -1
+	steps := 6 + r.Intn(10)
+	if latePart {
+		setAt = r.Intn(steps)
+	}
+	for i := steps; i > 0; i-- {
+		if steps-i == setAt || (setAt >= 0 && steps-i > setAt && r.Intn(8) == 0) {
+			g.emit("setpart", "setpart"+cls, true) // the first one builds the ring and every table; later ones change nothing
+			observe()
+		}
 		id := 1 + r.Intn(g.n)
 		switch x := r.Intn(100); {
 		case x < 12:
